@@ -398,8 +398,11 @@ class History:
         cols = int(rng.integers(4, 7))
         m = numpy.zeros((n, cols), dtype=I64)
         vals = [v for v in self.vals if v != 0] or [1]
+        # always: a column that lists something followed by one that lists nothing, and a listing last column
+        listing = [bool(rng.random() < 0.5) for _ in range(cols)]
+        listing[0], listing[1], listing[-1] = True, False, True
         for c in range(cols):
-            if rng.random() < 0.5:
+            if listing[c]:
                 rows = rng.choice(n, size=int(rng.integers(1, 30)), replace=False)
                 m[rows, c] = rng.choice(vals, size=len(rows))
         return Live(gen.dense_to_index(m, 0), m, "huge")
@@ -409,6 +412,9 @@ class History:
         try:
             self.add(self.huge() if self.profile.get("huge") else self.fresh())
             for step in range(self.nsteps):
+                first = self.profile.get("first_ops") or []
+                if step < len(first) and getattr(self, "op_" + first[step])():
+                    continue
                 self.step()
         except Stop:
             pass
@@ -537,7 +543,8 @@ class History:
             return False
         present = numpy.unique(r.m).tolist() if r.m.size else []
         cand = present + [v for v in self.vals if v not in present] + [max(self.vals) + 2]
-        v = int(gen.pick(self.rng, cand))
+        other = [c for c in cand if c != r.x.common]
+        v = int(gen.pick(self.rng, other if other and self.rng.random() < 0.85 else cand))
         self.log("shift_common_v", v=v, present=v in present)
         r.x.shift_common(v)
         self.entry_set_changed = True
